@@ -56,7 +56,10 @@ def _sysroot():
 
 def ensure_driver():
     if os.path.exists(DRIVER):
-        return
+        src = os.path.join(VERIF, "engine", "mp4facts", "src")
+        newest = max(os.path.getmtime(os.path.join(src, f)) for f in os.listdir(src))
+        if newest <= os.path.getmtime(DRIVER):
+            return
     subprocess.check_call(
         ["cargo", "build", "--release", "--offline"],
         cwd=os.path.join(VERIF, "engine", "mp4facts"),
